@@ -1,6 +1,9 @@
 //! kv-core: property checks that drive kanidmd_lib / kanidm_proto / kanidm_lib_crypto.
 //! usage: kv-core <Cnn> [--tier quick|thorough] [--replay file] [--opt k=v]
 
+#[macro_use]
+extern crate tracing;
+
 mod checks;
 mod fixtures;
 mod pw;
